@@ -33,7 +33,7 @@ import time
 from fractions import Fraction
 
 VERIF = os.path.dirname(os.path.dirname(os.path.dirname(os.path.abspath(__file__))))
-COQ = os.path.join(VERIF, "coq")
+COQ = os.environ.get("VERIF_COQ", os.path.join(VERIF, "coq"))
 REPO = os.environ.get("VERIF_REPO", "/repo")
 PY = "/venv/bin/python"
 NWORK = int(os.environ.get("VERIF_JOBS", "14"))
